@@ -46,7 +46,9 @@ type alphabet struct {
 	// Close: gRPC closes the balancer at some point of the history. Afterwards it delivers no more
 	// balancer callbacks and refuses to create connections, but picks on the pickers already
 	// published and completion callbacks of open calls still arrive.
-	Close   bool
+	Close bool
+	// R2C: READY connections may report CONNECTING directly
+	R2C     bool
 	MaxOpen int
 	MaxSC   int
 }
@@ -327,6 +329,9 @@ func (w *poolWorld) pubFor(gen string) *publication {
 	return nil
 }
 
+// r2c: also offer READY -> CONNECTING (see below)
+var r2c bool
+
 func nextStates(sc *fakeSC, full bool) []connectivity.State {
 	var r []connectivity.State
 	switch sc.state {
@@ -336,6 +341,11 @@ func nextStates(sc *fakeSC, full bool) []connectivity.State {
 		r = []connectivity.State{connectivity.Ready, connectivity.TransientFailure}
 	case connectivity.Ready:
 		r = []connectivity.State{connectivity.Idle}
+		if r2c {
+			// READY -> CONNECTING without IDLE in between: gRPC resets the transport at once when
+			// UpdateAddresses drops the address the connection is using (addrConn.updateAddrs)
+			r = append(r, connectivity.Connecting)
+		}
 	case connectivity.TransientFailure:
 		r = []connectivity.State{connectivity.Idle}
 		if full {
@@ -353,6 +363,7 @@ var stateNames = map[string]connectivity.State{"IDLE": connectivity.Idle, "CONNE
 
 func (w *poolWorld) Ops() []string {
 	a := w.cfg.A
+	r2c = a.R2C
 	var ops []string
 	now := w.s.Clock()
 	// completions first (simplest), then picks, state reports, clock, resolver
@@ -576,6 +587,15 @@ func (w *poolWorld) Do(op string) {
 		fmt.Sscanf(args[1], "%d", &n)
 		if ref := w.gb.scRefs[w.cc.scs[i]]; ref != nil {
 			atomic.StoreInt32(&ref.affinityCnt, int32(n))
+		}
+	case "streams":
+		// setup only: channel args[0] already carries args[1] open streams (long-lived calls placed
+		// earlier, never completed within the explored history)
+		var i, n int
+		fmt.Sscanf(args[0], "%d", &i)
+		fmt.Sscanf(args[1], "%d", &n)
+		if ref := w.gb.scRefs[w.cc.scs[i]]; ref != nil {
+			atomic.StoreInt32(&ref.streamsCnt, int32(n))
 		}
 	case "fail":
 		w.cc.failFactory = args[0] == "on"
